@@ -36,7 +36,7 @@ PROPERTY_RULES: Dict[str, List[str]] = {
             "R19/anc-closure"],
     "C03": ["R20/ports", "R20/connect", "R21", "R22/readers", "R8/lift", "R17", "R5/store", "R5/update_min", "R20/delay", "R20/table", "R20/writers", "R11/out", "R4/outtime", "R1/O1", "R1/O4", "R2/INFLIGHT", "R2/anc", "R2/own"],
     "C04": ["R20/ports", "R18", "R2/INFLIGHT", "R2/anc", "R2/own", "R21", "R8", "R5", "R6", "R17", "R10/R18", "R1/O1", "R1/O2", "R1/O3", "R1/O4", "R20/table", "R20/delay", "R11/raw", "R4/dedup", "R4/wake", "R19/anc-closure", "R19/closure"],
-    "C05": ["R11/local", "R3/INIT", "R4/outtime", "R14/shared", "R8", "R1/O4", "R1/O5", "R2", "R4/wake", "R4/settle", "R4/wait", "R5", "R6", "R7/site", "R19/anc-closure", "R19/zero", "R19/closure", "R19/gate", "R19/seed"],
+    "C05": ["R20/delay", "R11/local", "R3/INIT", "R4/outtime", "R14/shared", "R8", "R1/O4", "R1/O5", "R2", "R4/wake", "R4/settle", "R4/wait", "R5", "R6", "R7/site", "R19/anc-closure", "R19/zero", "R19/closure", "R19/gate", "R19/seed"],
     "C06": ["R5", "R20/connect", "R6", "R7/site", "R7/R9", "R19", "R20/delay"],
     "C07": ["R2/INFLIGHT", "R2/sink", "R2/anc", "R2/own", "R2/until", "R2/extra", "R3/P3", "R5/store", "R5/update_min", "R19/anc-closure", "R4/notify", "R20/delay"],
     "C08": ["R6", "R20/table/input_delays", "R5/store", "R19/zero", "R19/anc-closure", "R19/closure", "R7/key", "R7/R9", "R5/update_min", "R1/O5b"],
@@ -64,7 +64,7 @@ CLAIMS: Dict[str, Tuple[str, str]] = {
             "value-level equality of inputs with the producers' histories; sub-time of weak delays on the data path (known finding W1, rule R21)"),
     "C04": ("registration-order independence of every derived table (min-tables under a total order on same-shape operands), the wait sets (predecessors, async consumers unconditionally, all consumers under lazy stepping), confinement of lazy_stepping and rt_strict (pass-through only), the reply of a simulator is only read and reaches the scheduler unchanged (in-process and remote agree), cache on/off agreement at the structural points where they differed (aliasing, floor entry), write-back discipline; progress bounds see the step in flight until its outputs are fetched (not only while step() runs); the output cache does not alias the reply of an in-process simulator (D28), port keys of the data-flow tables",
             "equality of observation sequences across interleavings and across the cache/push paths in general"),
-    "C05": ("no lost wake-up (Progress, next_step_settled), every wait target is dominated by a bound containing until, progress bounds are minima over all step sources, comparison sites of the partial interval order; nothing mutable is created in a class body and shared by all proxies (a class-level lock), future-dated output times start at sub-step 0; an in-process simulator written in generator style is driven (next / send) only inside the handler of the generator protocol, so a method that returns without yielding delivers its value instead of killing the run",
+    "C05": ("no lost wake-up (Progress, next_step_settled), every wait target is dominated by a bound containing until, progress bounds are minima over all step sources, comparison sites of the partial interval order; nothing mutable is created in a class body and shared by all proxies (a class-level lock), future-dated output times start at sub-step 0; an in-process simulator written in generator style is driven (next / send) only inside the handler of the generator protocol, so a method that returns without yielding delivers its value instead of killing the run; the interval a producer waits on for its successors is the plain adaptation between the two groups (no weak / time-shift component: with one, the lazy wait targets a sub-step the successor cannot reach and the run deadlocks)",
             "absence of deadlock for all accepted scenarios (liveness of the whole protocol)"),
     "C06": ("min-tables and update_min contract, lexicographic order methods, comparison sites (two path-sum sites are the known finding D16); connect() registers the async edges exactly under its flag, `world.group()` blocks nest (the entry group is remembered per block)",
             "exactness of the closure over all multigraphs"),
